@@ -231,7 +231,7 @@ theorem Inv.table_step {cfg : Cfg} {s : St} {d : Disk} (h : Inv cfg s d) {j : Jo
     (by subst hj'; exact hpc) ⟨j, hj, hnr⟩ (fun _ => hnc)
     (fun j0 h0 => by
       rw [hj] at h0; cases h0; subst hj'
-      exact ⟨rfl, fun _ hb => by rw [hbc] at hb; cases hb⟩)
+      exact ⟨rfl, fun _ hb => by rw [JPc.uninstalled_of_bc hbc] at hb; cases hb⟩)
     (fun hr => by
       subst hj'
       have hrun := h.run hr
